@@ -104,12 +104,20 @@ pub fn run(ctx: &mut Ctx) {
         }
         let model = GraphModel(Arc::new(g));
         case.sample(|| model.summary());
+        // a depth limit cuts paths short; a cut is not the end of a maximal path, so the
+        // no-false-alarm half must survive it (exactness is only judged on unlimited runs)
+        let maxd = reach.dist.iter().filter(|d| **d != u32::MAX).max().copied().unwrap_or(0) as usize;
         for strategy in [Strategy::Bfs, Strategy::Dfs, Strategy::OnDemand] {
             let threads = *case.rng.pick(&[1usize, 1, 2, 4]);
-            let cfg = RunCfg { threads, visitor: 0, ..RunCfg::default() };
+            let target_max_depth = if case.rng.pct(25) { Some(case.rng.range(1, maxd + 2)) } else { None };
+            let cfg = RunCfg { threads, visitor: 0, target_max_depth, ..RunCfg::default() };
             let out = run_checker(&model, strategy, &cfg, false);
             case.add(&format!("runs_{}", strategy.name()), 1);
-            judge(case, &model, strategy.name(), threads, &out, &oracle, is_forest);
+            if target_max_depth.is_some() {
+                case.add("runs_with_depth_limit", 1);
+            }
+            let tag = if target_max_depth.is_some() { format!("{}+depth-limit", strategy.name()) } else { strategy.name().to_string() };
+            judge(case, &model, &tag, threads, &out, &oracle, is_forest && target_max_depth.is_none());
         }
         if model.inits.iter().any(|i| model.inb[*i as usize]) {
             for _ in 0..3 {
@@ -118,12 +126,13 @@ pub fn run(ctx: &mut Ctx) {
                     threads: *case.rng.pick(&[1usize, 2]),
                     visitor: 0,
                     target_state_count: Some(case.rng.range(5, 150)),
+                    target_max_depth: if case.rng.pct(25) { Some(case.rng.range(2, maxd + 3)) } else { None },
                     watchdog: std::time::Duration::from_secs(20),
                     ..RunCfg::default()
                 };
                 let out = run_checker(&model, Strategy::Simulation(seed), &cfg, false);
                 case.add("runs_simulation", 1);
-                judge(case, &model, "simulation", cfg.threads, &out, &oracle, false);
+                judge(case, &model, if cfg.target_max_depth.is_some() { "simulation+depth-limit" } else { "simulation" }, cfg.threads, &out, &oracle, false);
             }
         }
     };
